@@ -115,7 +115,15 @@ def run_for(ctx, pid):
     cevs = corpus_files(ctx)
     for e in cevs:
         e['hasprog'] = False
-    allev = evs + cevs
+    sevs = []
+    if pid == 'C05':
+        sp = os.path.join(ctx.build, 'jq_ev_slice.ndjson')
+        ctx.run([ctx.go_build('jqtree'), 'slice', str(400 if ctx.tier == 'thorough' else 80), sp], check=True, timeout=600)
+        sevs = vlib.read_ndjson(sp)
+        for e in sevs:
+            e['hasprog'] = False
+        ctx.cov['jq_sliced_binary_decodes'] = len(sevs)
+    allev = evs + cevs + sevs
     bad = [e for e in allev if e['jqerr']]
     if len(bad) > len(allev) // 20:
         raise Inconclusive('jq observation failed on %d trees: %s' % (len(bad), bad[0]['jqerr'][:200]))
@@ -130,7 +138,7 @@ def run_for(ctx, pid):
         for sig in rej[i]:
             if sig.startswith(pref) or sig == 'path.node_count_differs':
                 what = treearm.describe(e) if e['hasprog'] else e['what']
-                s2 = sig if e['hasprog'] else '%s@%s' % (sig, corpusarm.family(e['what'].split(' ')[0]))
+                s2 = sig if (e['hasprog'] or e.get('kind') == 'slice') else '%s@%s' % (sig, corpusarm.family(e['what'].split(' ')[0]))
                 ctx.finding(s2, what, dict(what=e['what'], prog=e['prog'], len=e['len'], force=e['force']))
     ev = next((e for e in evs if len(e['nodes']) >= 5), evs[0])
     ctx.sample(dict(kind='tree observed through jq', program=treearm.describe(ev),
